@@ -127,7 +127,7 @@ Definition oracle_step (t : stbl) (a' : sst) (o : op) (ob : obs) : bool :=
   let '(r, d, td) := ob in
   readback_ok a' d &&
   match o, r with
-  | OSearchFiltered c (x :: q) k b _, RRes l =>
+  | OSearchFiltered c (x :: q) k b _ _, RRes l =>
       if nonzero_query (x :: q) && negb (N.eqb k 0) then
         let live := tagged td c b (dget d c) in
         let ex := exact_ok (cands (score_of t) 0 (x :: q) live) (N.to_nat k) l in
@@ -185,8 +185,8 @@ Definition fpath_ok (t : stbl) (p : fpath) (q : vec) (k : N) (r : out) : bool :=
   | FCachedOrExact snap m, RRes l =>
       exact_ok (cands (score_of t) 0 q m) (N.to_nat k) l
       || (cached_ok (score_of t 10 q) snap (N.to_nat k) l && forallb (fun x => is_some (aget m (fst x))) l)
-  | FPostNoFallback d m, RRes l =>
-      post_ok (cands (score_of t) 0 q d) (cands (score_of t) 0 q m) (N.to_nat (3 * k)) (N.to_nat k) l
+  | FPostNoFallback n d m, RRes l =>
+      post_ok (cands (score_of t) 0 q d) (cands (score_of t) 0 q m) (N.to_nat n) (N.to_nat k) l
   | FPostCached snap m, RRes l =>
       cached_ok (score_of t 10 q) snap (N.to_nat k) l && forallb (fun x => is_some (aget m (fst x))) l
   | FPanic, RErr 99 => true
@@ -205,8 +205,8 @@ Definition model_step_ok (maxd : N) (t : stbl) (s : st) (tg : tags) (o : op) (ob
   let tg' := tstep maxd s tg o in
   (s', tg', dump_matches d s' && tdump_matches td tg' &&
        match o with
-       | OSearchFiltered c q k b strat =>
-           fpath_ok t (filtered_path gen_cached_dim_guard maxd gen_post_filter_fallback s tg c q k b strat) q k r
+       | OSearchFiltered c q k b strat ovs =>
+           fpath_ok t (filtered_path gen_cached_dim_guard maxd gen_post_filter_fallback s tg c q k b strat ovs) q k r
        | OSearch c q k => path_ok t (search_path gen_cached_dim_guard maxd s c q k) q k r
        | OSearchMetric q k m => path_ok t (search_metric_path s q k m) q k r
        | _ => out_eqb mr r
